@@ -1,12 +1,15 @@
 package main
 
 import (
+	"unicode"
+
 	"github.com/akrennmair/updog"
 )
 
 // C19 — `updog create` ingests a CSV faithfully in both modes.
 
 func init() {
+	verifHarnesses["HarnessC19Headers"] = HarnessC19Headers
 	verifHarnesses["HarnessC19Create"] = HarnessC19Create
 	verifHarnesses["HarnessC19Errors"] = HarnessC19Errors
 }
@@ -150,6 +153,7 @@ func HarnessC19Create() {
 		if err != nil {
 			return
 		}
+		created := verifFileVersion(out)
 		got, err := updog.OpenIndex(out)
 		verifAssert(err == nil, tag+": the created index cannot be opened")
 		if err != nil {
@@ -157,6 +161,8 @@ func HarnessC19Create() {
 		}
 		c19Compare(tag, got, want, names, recs)
 		got.Close()
+		// C16: the first open/query/close of a freshly created index leaves its bytes alone
+		verifAssert(verifFileVersion(out) == created, tag+": opening and querying the created index modified the file")
 	}
 	want.Close()
 	verifReach("end")
@@ -198,6 +204,53 @@ func HarnessC19Errors() {
 	verifAssert(!wantErr || err != nil, "C19: a malformed CSV or an existing output must make the command fail")
 	if existed {
 		verifAssert(verifFileVersion(out) == before, "C19: an existing output file was touched")
+	}
+	verifReach("end")
+}
+
+// c19NormRunes is the documented normalisation character by character (for concrete,
+// possibly non-ASCII headers): lower-case, then everything outside a-z becomes '_'.
+func c19NormRunes(h string) string {
+	out := []rune{}
+	for _, r := range h {
+		r = unicode.ToLower(r)
+		if r < 'a' || r > 'z' {
+			r = '_'
+		}
+		out = append(out, r)
+	}
+	return string(out)
+}
+
+// HarnessC19Headers: concrete headers with multi-byte characters, characters whose lower
+// case is ASCII (Kelvin sign), invalid UTF-8, digits, blanks and punctuation; one record.
+func HarnessC19Headers() {
+	samples := []string{"Città", "Größe", "Prénom", "Temp \u212a", "naïve café", "日本語", "a\xffb", "ID#1", " x ", "İd", "UPPER_lower-9", "ß", "é"}
+	h := samples[verifChoice("header", len(samples))]
+	in := verifTempPath("c19h.csv")
+	verifCSV(in, [][]string{{h, "plain"}, {"v1", "v2"}}, -1)
+	want := c19NormRunes(h)
+	for mode := 0; mode < 2; mode++ {
+		out := verifTempPath([]string{"c19h_normal.updog", "c19h_big.updog"}[mode])
+		if err := createCmd(&globalConfig{}, &createConfig{outputFile: out, inputFile: in, big: mode == 1}); err != nil {
+			verifAssert(false, "C19: a well-formed CSV was rejected")
+			return
+		}
+		idx, err := updog.OpenIndex(out)
+		if err != nil {
+			verifAssert(false, "C19: the created index cannot be opened")
+			return
+		}
+		found := false
+		for _, c := range idx.GetSchema().Columns {
+			if c.Name == want {
+				found = true
+			}
+		}
+		verifAssert(found, "C19: a column is not named by its header lower-cased with every character outside a-z replaced by '_'")
+		n, ok := c19Count(idx, &updog.ExprEqual{Column: want, Value: "v1"})
+		verifAssert(ok && n == 1, "C19: the field under a normalised header is not queryable")
+		idx.Close()
 	}
 	verifReach("end")
 }
